@@ -52,7 +52,8 @@ META = {
     "stubs": ["isinstance/int shims", "the recursive search helper of dali.sequences (`_find_next`; found by its "
               "shape, not by its name) replaced by its contract in (B); the 'clash' marker is taken from the real "
               "helper"],
-    "outside": ["buses of more than 4 units", "two simultaneous answers received as one clean frame",
+    "outside": ["buses of more than 4 units", "more than two clashing RANDOMISE rounds in one run (e.g. a restart "
+                "budget that runs out after five)", "two simultaneous answers received as one clean frame",
                 "gear that violate IEC 62386-102 other than by not storing the programmed address"],
     "assumptions": ["fairness: clashing units eventually draw different random addresses (assumed from the "
                     "third RANDOMISE round on)"],
